@@ -97,3 +97,124 @@ Proof.
   intros. destruct (N.eq_dec den 0) as [->|Hd]; [change (0 * 100) with 0; destruct (num * c1), (num * c2); reflexivity|].
   apply N.div_le_mono; [lia | nia].
 Qed.
+
+(** ** exchange-rate conversions at the u128 level *)
+Definition euro_floor (num den cents : N) : N := num * cents / (den * 100).
+Definition cent_floor (num den micro : N) : N := micro * 100 * den / num.
+
+(** the floor of the rational value *)
+Lemma floor_law : forall a b, b <> 0 -> (a / b) * b <= a < (a / b + 1) * b.
+Proof.
+  intros a b Hb. pose proof (N.div_mod a b Hb) as E. pose proof (N.mod_lt a b Hb) as L.
+  set (q := a / b) in *. set (r := a mod b) in *. clearbody q r. subst a.
+  split; [lia|]. rewrite N.mul_add_distr_r. lia.
+Qed.
+Lemma floor_unique : forall a b q, b <> 0 -> q * b <= a < (q + 1) * b -> q = a / b.
+Proof.
+  intros a b q Hb [H1 H2]. rewrite N.mul_add_distr_r in H2.
+  apply (N.div_unique a b q (a - q * b)); lia.
+Qed.
+
+(** [convert_euro_cent_to_amount]: the u128 products of u64 values cannot overflow *)
+Lemma euro_cent_no_intermediate_overflow : forall num den cents,
+  num < W64 -> den < W64 -> cents < W64 -> num * cents < W128 /\ den * 100 < W128.
+Proof.
+  intros num den cents H1 H2 H3. unfold W64, W128 in *. split; [|lia].
+  assert (num * cents <= 18446744073709551615 * 18446744073709551615) by (apply N.mul_le_mono; lia). lia.
+Qed.
+Lemma euro_cent_result : forall num den cents, den <> 0 ->
+  convert_euro_cent_to_amount num den cents = Some (euro_floor num den cents mod W64)
+  /\ euro_floor num den cents * (den * 100) <= num * cents < (euro_floor num den cents + 1) * (den * 100).
+Proof.
+  intros num den cents Hd. split.
+  - unfold convert_euro_cent_to_amount. apply N.eqb_neq in Hd. rewrite Hd. reflexivity.
+  - apply floor_law. lia.
+Qed.
+(** exact in the rationals (floor) exactly when the true result fits into 64 bits;
+    otherwise [as u64] keeps the low 64 bits: the overflow is NOT reported *)
+Lemma euro_cent_exact_iff : forall num den cents v, den <> 0 ->
+  convert_euro_cent_to_amount num den cents = Some v ->
+  (v = euro_floor num den cents <-> euro_floor num den cents < W64).
+Proof.
+  intros num den cents v Hd H. destruct (euro_cent_result num den cents Hd) as [E _].
+  rewrite E in H. inversion H; subst. split.
+  - intros X. rewrite <- X. apply N.mod_lt. unfold W64. lia.
+  - intros X. apply N.mod_small. exact X.
+Qed.
+Lemma euro_cent_monotone_when_fits : forall num den c1 c2 v1 v2, den <> 0 -> c1 <= c2 ->
+  euro_floor num den c2 < W64 ->
+  convert_euro_cent_to_amount num den c1 = Some v1 -> convert_euro_cent_to_amount num den c2 = Some v2 ->
+  v1 <= v2.
+Proof.
+  intros num den c1 c2 v1 v2 Hd Hc Hfit H1 H2.
+  pose proof (convert_euro_cent_monotone num den c1 c2 Hc) as M. fold (euro_floor num den c1) (euro_floor num den c2) in M.
+  apply (euro_cent_exact_iff _ _ _ _ Hd) in H2 as E2. apply E2 in Hfit as ->.
+  apply (euro_cent_exact_iff _ _ _ _ Hd) in H1 as E1.
+  assert (F1 : euro_floor num den c1 < W64) by lia. apply E1 in F1 as ->. exact M.
+Qed.
+(** witness: 2 euro cents per ... numerator 200, denominator 1: the result wraps at 2^63 cents *)
+Lemma euro_cent_truncation_witness :
+  convert_euro_cent_to_amount 200 1 9223372036854775807 = Some 18446744073709551614
+  /\ convert_euro_cent_to_amount 200 1 9223372036854775808 = Some 0
+  /\ euro_floor 200 1 9223372036854775808 = W64.
+Proof. repeat split; vm_compute; reflexivity. Qed.
+
+(** [convert_amount_to_euro_cent]: [None] (arithmetic-overflow panic of the checked build, or
+    division by zero) exactly when the u128 product does not fit *)
+Lemma amount_to_euro_cent_none_iff : forall num den micro,
+  convert_amount_to_euro_cent num den micro = None <-> num = 0 \/ W128 <= micro * 100 * den.
+Proof.
+  intros num den micro. unfold convert_amount_to_euro_cent.
+  destruct (num =? 0) eqn:E; [apply N.eqb_eq in E; split; auto|]. apply N.eqb_neq in E.
+  destruct (micro * 100 * den <? W128) eqn:L.
+  - apply N.ltb_lt in L. split; [discriminate | intros [X|X]; [congruence | lia]].
+  - apply N.ltb_ge in L. split; auto.
+Qed.
+Lemma amount_to_euro_cent_result : forall num den micro v,
+  convert_amount_to_euro_cent num den micro = Some v ->
+  num <> 0 /\ micro * 100 * den < W128 /\ v = cent_floor num den micro mod W64
+  /\ cent_floor num den micro * num <= micro * 100 * den < (cent_floor num den micro + 1) * num.
+Proof.
+  intros num den micro v H. unfold convert_amount_to_euro_cent in H.
+  destruct (num =? 0) eqn:E; [discriminate|]. apply N.eqb_neq in E.
+  destruct (micro * 100 * den <? W128) eqn:L; [|discriminate]. apply N.ltb_lt in L. inversion H; subst.
+  repeat split; try assumption; apply floor_law; exact E.
+Qed.
+Lemma amount_to_euro_cent_exact_iff : forall num den micro v,
+  convert_amount_to_euro_cent num den micro = Some v ->
+  (v = cent_floor num den micro <-> cent_floor num den micro < W64).
+Proof.
+  intros num den micro v H. destruct (amount_to_euro_cent_result _ _ _ _ H) as (_ & _ & -> & _). split.
+  - intros X. rewrite <- X. apply N.mod_lt. unfold W64. lia.
+  - intros X. apply N.mod_small. exact X.
+Qed.
+(** a reported overflow is a real one: when the u128 product does not fit, the true result
+    exceeds u64 (the numerator is a u64) *)
+Lemma amount_to_euro_cent_none_sound : forall num den micro, num <> 0 -> num < W64 ->
+  W128 <= micro * 100 * den -> W64 <= cent_floor num den micro.
+Proof.
+  intros num den micro Hn Hlt H. unfold cent_floor.
+  apply N.div_le_lower_bound; [exact Hn|]. unfold W64, W128 in *. nia.
+Qed.
+(** ... but not every overflow is reported: the result is truncated by [as u64] *)
+Lemma amount_to_euro_cent_truncation_witness :
+  convert_amount_to_euro_cent 1 1 9223372036854775808 = Some 0
+  /\ cent_floor 1 1 9223372036854775808 = 50 * W64.
+Proof. split; vm_compute; reflexivity. Qed.
+Lemma cent_floor_monotone : forall num den m1 m2, m1 <= m2 -> cent_floor num den m1 <= cent_floor num den m2.
+Proof.
+  intros num den m1 m2 H. unfold cent_floor. destruct (N.eq_dec num 0) as [->|Hn].
+  - destruct (m1 * 100 * den), (m2 * 100 * den); reflexivity.
+  - apply N.div_le_mono; [exact Hn | nia].
+Qed.
+Lemma amount_to_euro_cent_monotone_when_fits : forall num den m1 m2 v1 v2, m1 <= m2 ->
+  cent_floor num den m2 < W64 ->
+  convert_amount_to_euro_cent num den m1 = Some v1 -> convert_amount_to_euro_cent num den m2 = Some v2 ->
+  v1 <= v2.
+Proof.
+  intros num den m1 m2 v1 v2 Hm Hfit H1 H2.
+  pose proof (cent_floor_monotone num den m1 m2 Hm) as M.
+  apply amount_to_euro_cent_exact_iff in H2 as E2. apply E2 in Hfit as ->.
+  apply amount_to_euro_cent_exact_iff in H1 as E1.
+  assert (F1 : cent_floor num den m1 < W64) by lia. apply E1 in F1 as ->. exact M.
+Qed.
